@@ -52,6 +52,7 @@ import Kopf.Lemmas.C20_Flag
 import Kopf.Lemmas.C20_InvK
 import Kopf.Lemmas.C20_Order
 import Kopf.Lemmas.C20_Monitor
+import Kopf.Lemmas.C20_Release
 namespace Kopf.C20
 
 /-! ### Startup first -/
@@ -1319,5 +1320,34 @@ theorem by_key_bookkeeping_misses_later_generations_witness :
     Monitor.escalates (Monitor.run false Monitor.init [([], [0])]) 0 = true
     ∧ Monitor.escalates (Monitor.run false Monitor.init [([], [0]), ([0], []), ([], [0])]) 0 = false
     ∧ Monitor.escalates (Monitor.run false Monitor.init [([], [0]), ([0], [0])]) 0 = false := by decide
+
+/-! ## The release of a dimension: what is being released is still known to the orchestrator's exit (seeded change C20h)
+
+"… the WHOLE operator shuts down … cleanup handlers run after EVERYTHING ELSE has stopped": `C20_Lifecycle`'s orchestrator stops
+every live `sub i` at its exit; that rests on the `Ensemble` still knowing every task that has not ended when the cancellation
+arrives — also in the middle of `terminate_redundancies` (`Kopf.Model.C20_Release`; `stopFirst := true` = the tree, tie T
+`release_stops_before_forgetting_eq`; whole-operator histories `drop_then_stop` exercise it on the real code). -/
+
+/-- For every sequence of adjustments (redundant keys, newly served keys — arbitrary, also overlapping and repeated), with the
+    cancellation arriving inside the wait of the LAST one's release or not at all: everything alive is known, so the orchestrator's
+    exit leaves nothing behind. -/
+theorem release_leaves_nothing_behind (ops : List (List Release.Key × List Release.Key)) (interrupted : Bool) :
+    (∀ k, k ∈ (Release.run true Release.init ops interrupted).alive → k ∈ (Release.run true Release.init ops interrupted).known)
+    ∧ Release.leftBehind (Release.run true Release.init ops interrupted) = [] :=
+  ⟨Release.run_inv ops interrupted Release.inv_init, Release.inv_leftBehind (Release.run_inv ops interrupted Release.inv_init)⟩
+
+/-- non-vacuity: keys 0 and 1 are served; key 0 becomes redundant and the cancellation arrives while its tasks are awaited: both are
+    alive, both are known -/
+example : (Release.run true Release.init [([], [0, 1]), ([0], [])] true) = { known := [0, 1], alive := [0, 1] } := by decide
+/-- … and without an interruption key 0 is over AND forgotten -/
+example : (Release.run true Release.init [([], [0, 1]), ([0], [])] false) = { known := [1], alive := [1] } := by decide
+
+/-- The changed order (forget the keys, then wait for the tasks — the seeded change C20h): interrupted in the wait, the released
+    key is alive and unknown — the orchestrator's exit leaves it behind; uninterrupted, the end state is the same as the tree's
+    (why kopf's own tests and every history without a stop inside a release pass). -/
+theorem forgetting_before_stopping_leaves_behind_witness :
+    Release.leftBehind (Release.run false Release.init [([], [0, 1]), ([0], [])] true) = [0]
+    ∧ Release.run false Release.init [([], [0, 1]), ([0], [])] false
+      = Release.run true Release.init [([], [0, 1]), ([0], [])] false := by decide
 
 end Kopf.C20
